@@ -124,6 +124,16 @@ int verif_case(const uint8_t *tape, size_t tlen, Info *info) {
   coap_register_response_handler(ctx, resp_handler);
 
   unsigned nsess = sweep ? 1 : (unsigned)t.pick({3, 1}) + 1;
+  // Read from the END of the tape (backwards, behind the bytes of the draws further down): a third session, and sessions whose message id counters
+  // coincide (each session draws its first message id at random, so equal ids in two sessions of one send queue are legal and happen)
+  std::vector<uint8_t> rev2(tape, tape + (tlen > 16 ? tlen - 16 : 0));
+  std::reverse(rev2.begin(), rev2.end());
+  Tape tb2(rev2.data(), rev2.size());
+  bool same_mids = false;
+  if (!sweep) {
+    if (nsess == 2 && tb2.chance(90)) nsess = 3;
+    same_mids = nsess > 1 && tb2.chance(100);
+  }
   for (unsigned i = 0; i < nsess; i++) {
     SessRec sr;
     Addr pa = Addr::v4(10, 0, 1, (uint8_t)(i + 1), 5683);
@@ -140,6 +150,7 @@ int verif_case(const uint8_t *tape, size_t tlen, Info *info) {
       sr.arf_ms = t.pick({1, 2}) ? t.range(1000, 3000) : 1500;
       sr.max_rt = t.pick({1, 3}) ? t.range(1, 6) : 4;  // the API ignores 0
     }
+    if (same_mids && i > 0) { sr.s->tx_mid = (uint16_t)(cs.sess[0].s->tx_mid + tb2.range(0, 2)); info->label("sessions-with-coinciding-message-ids"); }
     coap_session_set_ack_timeout(sr.s, (coap_fixed_point_t){(uint16_t)(sr.at_ms / 1000), (uint16_t)(sr.at_ms % 1000)});
     coap_session_set_ack_random_factor(sr.s, (coap_fixed_point_t){(uint16_t)(sr.arf_ms / 1000), (uint16_t)(sr.arf_ms % 1000)});
     coap_session_set_max_retransmit(sr.s, (uint16_t)sr.max_rt);
